@@ -4,10 +4,11 @@ from __future__ import annotations
 import ast
 
 from ..absval import Lin, Undecided, linform
-from ..core import (AnalysisError, call_name, dotted, is_const, local_defs, norm, origin, parent_map,
+from ..core import (AnalysisError, alpha, call_name, dotted, is_const, local_defs, norm, origin, parent_map,
                     walk_local, kwarg)
 from ..facts import guards_of, returns_of, enclosing_loops, default_of
 from ..rules import walk as W
+from ..pattern import pmatch, pfind, pall
 
 DF = "synkit/CRN/Props/deficiency.py"
 ST = "synkit/CRN/Props/stoich.py"
@@ -57,12 +58,24 @@ def run(rep):
 
 def complex_vectors(rep, table):
     fi = rep.f(DF, A + "_complex_vectors")
-    directed = W.graph_is_directed(rep.repo, fi, "G")
-    rep.ob("O19.1", "R5", fi, True if directed else None, "G", "the graph walked in _complex_vectors is the directed bipartite view",
+    Gp = fi.params[1]
+    directed = W.graph_is_directed(rep.repo, fi, Gp)
+    rep.ob("O19.1", "R5", fi, True if directed else None, Gp, "the graph walked in _complex_vectors is the directed bipartite view",
            {"directed": directed}, node=fi.node)
-    ws = [w for w in W.walks(fi) if w.node == "r"]
-    rep.need("R5", len(ws), 1, "per-reaction arc walks in _complex_vectors")
     pm = parent_map(fi.node)
+    defs = local_defs(fi.node)
+    rets = returns_of(fi.node)
+    rm = pmatch("($complexes, $idx, $cg)", rets[-1].value) if rets else None
+    if rm is None:
+        raise AnalysisError("_complex_vectors no longer returns (complexes, index map, complex graph)")
+    CG, IDX, CX = rm["cg"], rm["idx"], rm["complexes"]
+    adds = [c for c in walk_local(fi.node) if isinstance(c, ast.Call) and norm(c.func) == f"{CG}.add_edge"]
+    rep.need("SHAPE", len(adds), 1, "CG.add_edge in _complex_vectors")
+    c = adds[0]
+    lp = enclosing_loops(pm, c, fi.node)
+    rnode = norm(lp[0].target) if lp else None
+    ws = [w for w in W.walks(fi, graph_names=(Gp,)) if w.node == rnode]
+    rep.need("R5", len(ws), 1, "per-reaction arc walks in _complex_vectors")
     acc_role = {}
     for w in ws:
         if not w.roles_tested:
@@ -74,82 +87,106 @@ def complex_vectors(rep, table):
                    f"arcs with role '{role}' are {want}-arcs of a reaction node; G.{w.method}(r) on a DiGraph enumerates {w.direction}-arcs "
                    f"(a mismatch makes the branch dead and the {role} complex empty)", {"walk_direction": w.direction, "writer_direction": want},
                    node=w.loop)
-        rep.ob("O19.1", "R5", fi, w.species_pos_ok, f"species end `{w.species_var}` of G.{w.method}(r)",
-               "the species end of the arc is the end that is not the reaction node", node=w.loop)
+        rep.ob("O19.1", "R5", fi, w.species_pos_ok, f"species end of G.{w.method}(r)",
+               "the species end of the arc is the end that is not the reaction node", {"species_var": w.species_var}, node=w.loop)
         # accumulations inside this walk
         for n in walk_local(w.loop):
             if isinstance(n, ast.AugAssign) and isinstance(n.target, ast.Subscript) and isinstance(n.op, ast.Add):
                 vec = norm(n.target.value)
                 gs = guards_of(pm, n, w.loop)
-                roles_here = [b.value for t, s in gs if s for c in ast.walk(t) if isinstance(c, ast.Compare)
-                              for b in c.comparators if isinstance(b, ast.Constant) and isinstance(b.value, str) and "role" in norm(c.left)]
+                roles_here = [b.value for t, s in gs if s for c_ in ast.walk(t) if isinstance(c_, ast.Compare)
+                              for b in c_.comparators if isinstance(b, ast.Constant) and isinstance(b.value, str) and "role" in norm(c_.left)]
                 acc_role.setdefault(vec, set()).update(roles_here)
                 # coefficient
                 v = n.value
-                getc = [c for c in ast.walk(v) if isinstance(c, ast.Call) and call_name(c) == "get"]
-                okk = bool(getc) and is_const(getc[0].args[0], "stoich") and norm(getc[0].func.value) == (w.data_var or "data") \
+                getc = [c_ for c_ in ast.walk(v) if isinstance(c_, ast.Call) and call_name(c_) == "get"]
+                okk = bool(getc) and is_const(getc[0].args[0], "stoich") and w.data_var is not None and norm(getc[0].func.value) == w.data_var \
                     and len(getc[0].args) > 1 and is_const(getc[0].args[1]) and getc[0].args[1].value == 1
-                rep.ob("O19.1", "R3b", fi, okk, n, "the complex entry adds this arc's 'stoich' coefficient (default 1)", node=n)
-                idx = norm(n.target.slice)
-                rep.ob("O19.1", "R5", fi, w.species_var is not None and w.species_var in idx, n,
+                rep.ob("O19.1", "R3b", fi, okk, alpha(n, fi.node), "the complex entry adds this arc's 'stoich' coefficient (default 1)", node=n)
+                idx = {x.id for x in ast.walk(n.target.slice) if isinstance(x, ast.Name)}
+                rep.ob("O19.1", "R5", fi, w.species_var is not None and w.species_var in idx, alpha(n, fi.node),
                        "the coefficient is added at the walked species' own index", node=n)
     # which vector is the reactant complex?
-    defs = local_defs(fi.node)
-    adds = [c for c in walk_local(fi.node) if isinstance(c, ast.Call) and norm(c.func) == "CG.add_edge"]
-    rep.need("SHAPE", len(adds), 1, "CG.add_edge in _complex_vectors")
-    c = adds[0]
     chain = []
     for a in c.args[:2]:
         src = origin(defs, a)  # add_complex(y)
         vec = origin(defs, src.args[0]) if isinstance(src, ast.Call) and call_name(src) == "add_complex" and src.args else None
-        # tuple(lhs)
         base = vec.args[0] if isinstance(vec, ast.Call) and call_name(vec) == "tuple" and vec.args else vec
         chain.append(norm(base) if base is not None else None)
     tail_roles = acc_role.get(chain[0], set()) if chain[0] else set()
     head_roles = acc_role.get(chain[1], set()) if chain[1] else set()
-    rep.ob("O19.2", "SHAPE", fi, tail_roles == {"reactant"} and head_roles == {"product"}, c,
+    rep.ob("O19.2", "SHAPE", fi, tail_roles == {"reactant"} and head_roles == {"product"}, alpha(c, fi.node),
            "the complex graph has one arc (reactant complex) -> (product complex) per reaction",
-           {"tail_vector": chain[0], "tail_roles": sorted(tail_roles), "head_vector": chain[1], "head_roles": sorted(head_roles)}, node=c)
+           {"tail_roles": sorted(tail_roles), "head_roles": sorted(head_roles)}, node=c)
     gs = guards_of(pm, c, fi.node)
-    rep.ob("O19.2", "SHAPE", fi, not gs, c.func, "every reaction contributes its arc (no filter)", node=c)
-    lp = enclosing_loops(pm, c, fi.node)
-    rep.ob("O19.2", "SHAPE", fi, bool(lp) and norm(lp[0].iter) == "reaction_nodes", lp[0].iter if lp else c, "complexes are collected over all reaction nodes")
+    rep.ob("O19.2", "SHAPE", fi, not gs, "CG.add_edge", "every reaction contributes its arc (no filter)", node=c)
+    rn_ok = False
+    if lp:
+        for d_ in defs.get(norm(lp[0].iter), []):
+            if d_.index == (1,) and isinstance(d_.value, ast.Call) and call_name(d_.value) == "_split_species_reactions" and norm(d_.value.args[0]) == Gp:
+                rn_ok = True
+    rep.ob("O19.2", "SHAPE", fi, rn_ok, lp[0].iter if lp else c, "complexes are collected over all reaction nodes")
     # vectors are reset per reaction
     resets = [n for n in (lp[0].body if lp else []) if isinstance(n, ast.Assign) and norm(n.targets[0]) in (chain[0], chain[1])]
-    rep.ob("O19.2", "SHAPE", fi, len(resets) == 2, [norm(r)[:30] for r in resets], "both complex vectors start from zero for every reaction")
+    rep.ob("O19.2", "SHAPE", fi, len(resets) == 2, [alpha(r, fi.node)[:30] for r in resets], "both complex vectors start from zero for every reaction")
     # de-duplication by vector
     ac = rep.f(DF, A + "_complex_vectors.<locals>.add_complex")
+    V = ac.params[0]
     first = [st for st in ac.node.body if isinstance(st, ast.If)]
-    ok = bool(first) and norm(first[0].test) == "vec in idx_map" and isinstance(first[0].body[0], ast.Return) \
-        and norm(first[0].body[0].value) == "idx_map[vec]"
+    ok = bool(first) and norm(first[0].test) == f"{V} in {IDX}" and isinstance(first[0].body[0], ast.Return) \
+        and norm(first[0].body[0].value) == f"{IDX}[{V}]"
     rep.ob("O19.2", "SHAPE", ac, ok, first[0].test if first else "add_complex", "complexes are the *distinct* multisets: an existing vector is reused")
-    ok2 = any(isinstance(n, ast.Assign) and norm(n.targets[0]) == "idx_map[vec]" for n in walk_local(ac.node)) \
-        and any(isinstance(n, ast.Call) and norm(n.func) == "complexes.append" and norm(n.args[0]) == "vec" for n in walk_local(ac.node))
-    rep.ob("O19.2", "SHAPE", ac, ok2, "idx_map[vec] = k; complexes.append(vec)", "a new complex is registered in the list and in the index map")
+    b = pall([f"$k = len({CX})", f"{CX}.append({V})", f"{IDX}[{V}] = $k", "return $k"], ac.node)
+    rep.ob("O19.2", "SHAPE", ac, b is not None, "idx_map[vec] = k; complexes.append(vec)", "a new complex is registered in the list and in the index map")
 
 
 def formulas(rep):
     fi = rep.f(DF, A + "compute_summary")
     defs = local_defs(fi.node)
+    cvc = [c for c in walk_local(fi.node) if isinstance(c, ast.Call) and call_name(c) == "_complex_vectors"]
+    rep.need("SHAPE", len(cvc), 1, "self._complex_vectors(G) in compute_summary")
+    Gp = norm(cvc[0].args[0])
+    rep.ob("O19.2", "SHAPE", fi, norm(origin(defs, cvc[0].args[0])) == "_as_bipartite(self._crn)", cvc[0], "complexes are built on the bipartite view of the analysed network")
 
     def atom(n):
         return n.id if isinstance(n, ast.Name) else None
-    d = [x for x in defs.get("delta", []) if x.kind == "assign"]
+    ds = [c for c in walk_local(fi.node) if isinstance(c, ast.Call) and call_name(c) == "DeficiencySummary"]
+    rep.need("SHAPE", len(ds), 1, "DeficiencySummary(...) in compute_summary")
+    kws = {}
+    for k in ds[0].keywords:
+        m = pmatch("int($x)", k.value) or pmatch("bool($x)", k.value)
+        kws[k.arg] = m["x"] if m else None
+    need = ("deficiency", "n_complexes", "n_linkage_classes", "stoich_rank", "weakly_reversible")
+    rep.ob("O19.2", "SHAPE", fi, all(kws.get(k) for k in need), ds[0].func, "the summary reports the computed quantities under their own names",
+           {k: kws.get(k) for k in need}, node=ds[0])
+    if not all(kws.get(k) for k in need):
+        return
+    DELTA, NC, NL, RK, WR = (kws[k] for k in need)
+    d = [x for x in defs.get(DELTA, []) if x.kind == "assign"]
     rep.need("R15", len(d), 1, "delta assignment in compute_summary")
     try:
         lf = linform(d[0].value, atom)
-        ok = lf == Lin({"n_complexes": 1, "n_link": -1, "rank": -1})
-        rep.ob("O19.2", "R15", fi, ok, d[0].stmt, "deficiency == n_complexes - n_linkage_classes - rank", {"linear_form": lf.pretty()})
+        ok = lf == Lin({NC: 1, NL: -1, RK: -1})
+        rep.ob("O19.2", "R15", fi, ok, alpha(d[0].stmt, fi.node), "deficiency == n_complexes - n_linkage_classes - rank", {"linear_form": lf.pretty()})
     except Undecided as exc:
-        rep.ob("O19.2", "R15", fi, None, d[0].stmt, str(exc))
-    nl = origin(defs, ast.Name(id="n_link", ctx=ast.Load()))
-    ok = isinstance(nl, ast.Call) and call_name(nl) == "number_connected_components" and norm(nl.args[0]) == "CG.to_undirected()"
+        rep.ob("O19.2", "R15", fi, None, alpha(d[0].stmt, fi.node), str(exc))
+    cv = [x for nm, xs in defs.items() for x in xs if x.index is not None and isinstance(x.value, ast.Call) and call_name(x.value) == "_complex_vectors"]
+    by_idx = {x.index: nm for nm, xs in defs.items() for x in xs if x in cv}
+    CX, CG = by_idx.get((0,)), by_idx.get((2,))
+    nl = origin(defs, ast.Name(id=NL, ctx=ast.Load()))
+    ok = isinstance(nl, ast.Call) and call_name(nl) == "number_connected_components" and CG is not None and norm(nl.args[0]) == f"{CG}.to_undirected()"
     rep.ob("O19.2", "SHAPE", fi, ok, nl, "linkage classes = connected components of the undirected complex graph")
-    nc = origin(defs, ast.Name(id="n_complexes", ctx=ast.Load()))
-    rep.ob("O19.2", "SHAPE", fi, norm(nc) == "len(complexes)", nc, "n_complexes counts the distinct complexes")
-    rk = [x for x in defs.get("rank", []) if x.kind == "assign"]
-    ok = bool(rk) and "self._rank_fn(G)" in norm(rk[0].value)
+    nc = origin(defs, ast.Name(id=NC, ctx=ast.Load()))
+    rep.ob("O19.2", "SHAPE", fi, CX is not None and norm(nc) == f"len({CX})", nc, "n_complexes counts the distinct complexes")
+    rk = [x for x in defs.get(RK, []) if x.kind == "assign"]
+    ok = bool(rk) and f"self._rank_fn({Gp})" in norm(rk[0].value)
     rep.ob("O19.2", "SHAPE", fi, ok, rk[0].stmt if rk else "rank", "rank is the stoichiometric rank of the same view")
+    wr = origin(defs, ast.Name(id=WR, ctx=ast.Load()))
+    rep.ob("O19.2", "SHAPE", fi, CG is not None and norm(wr) == f"self._is_weakly_reversible({CG})", wr, "weak reversibility is evaluated on the complex graph")
+    st_cg = [n for n in walk_local(fi.node) if isinstance(n, ast.Assign) and norm(n.targets[0]) == "self._complex_graph"]
+    st_cx = [n for n in walk_local(fi.node) if isinstance(n, ast.Assign) and norm(n.targets[0]) == "self._complexes"]
+    rep.ob("O19.2", "SHAPE", fi, len(st_cg) == 1 and norm(st_cg[0].value) == CG and len(st_cx) == 1 and norm(st_cx[0].value) == CX, "self._complex_graph / self._complexes",
+           "the complex graph and the complexes used later are the ones computed here")
     init = rep.f(DF, A + "__init__")
     dflt = default_of(init, "rank_fn")
     rep.ob("O19.2", "SHAPE", init, dflt is not None and norm(dflt) == "stoichiometric_rank", dflt if dflt is not None else "rank_fn",
@@ -158,44 +195,61 @@ def formulas(rep):
     rep.ob("O19.2", "SHAPE", f"{DF}:<module>", imp.endswith("stoich.stoichiometric_rank"), f"import <- {imp}", "stoichiometric_rank is the one of Props.stoich")
     sr = rep.f(ST, "stoichiometric_rank")
     rets = returns_of(sr.node)
-    ok = len(rets) == 1 and "np.linalg.matrix_rank(S" in norm(rets[0].value) and norm(origin(local_defs(sr.node), ast.Name(id="S", ctx=ast.Load()))) == "stoichiometric_matrix(crn)"
+    ok = False
+    if len(rets) == 1:
+        mr = [c for c in ast.walk(rets[0].value) if isinstance(c, ast.Call) and call_name(c) == "matrix_rank"]
+        ok = bool(mr) and pmatch(f"stoichiometric_matrix({sr.params[0]})", origin(local_defs(sr.node), mr[0].args[0])) is not None
     rep.ob("O19.2", "SHAPE", sr, ok, rets[0] if rets else "return", "rank = matrix_rank of the stoichiometric matrix")
-    # the summary stores what was computed
-    ds = [c for c in walk_local(fi.node) if isinstance(c, ast.Call) and call_name(c) == "DeficiencySummary"]
-    if ds:
-        kws = {k.arg: norm(k.value) for k in ds[0].keywords}
-        ok = kws.get("deficiency") == "int(delta)" and kws.get("n_complexes") == "int(n_complexes)" and \
-            kws.get("n_linkage_classes") == "int(n_link)" and kws.get("stoich_rank") == "int(rank)" and "weakly_rev" in kws.get("weakly_reversible", "")
-        rep.ob("O19.2", "SHAPE", fi, ok, ds[0].func, "the summary reports the computed quantities under their own names", kws, node=ds[0])
     # linkage-class deficiencies
     lf_fi = rep.f(DF, A + "compute_linkage_deficiencies")
-    apps = [c for c in walk_local(lf_fi.node) if isinstance(c, ast.Call) and norm(c.func) == "lc_defs.append"]
+    ld = local_defs(lf_fi.node)
+    st_l = [n for n in walk_local(lf_fi.node) if isinstance(n, ast.Assign) and norm(n.targets[0]) == "self._linkage_deficiencies"]
+    OUT = norm(st_l[0].value) if len(st_l) == 1 else None
+    apps = [c for c in walk_local(lf_fi.node) if isinstance(c, ast.Call) and norm(c.func) == f"{OUT}.append"]
     rep.need("R15", len(apps), 1, "lc_defs.append")
+    lps_ = enclosing_loops(parent_map(lf_fi.node), apps[0], lf_fi.node)
+    lc = norm(lps_[0].target) if lps_ else "?"
     try:
         lf = linform(apps[0].args[0], atom)
-        rep.ob("O19.2", "R15", lf_fi, lf == Lin({"n_l": 1, 1: -1, "s_l": -1}), apps[0], "delta_l == n_l - 1 - s_l", {"linear_form": lf.pretty()})
+        names = [k for k in lf if isinstance(k, str)]
+        nl_ = [k for k in names if norm(origin(ld, ast.Name(id=k, ctx=ast.Load()))) == f"len({lc})"]
+        sl_ = [k for k in names if norm(origin(ld, ast.Name(id=k, ctx=ast.Load()))) == f"self._linkage_class_stoich_rank({lc})"]
+        ok = len(nl_) == 1 and len(sl_) == 1 and lf == Lin({nl_[0]: 1, 1: -1, sl_[0]: -1})
+        rep.ob("O19.2", "R15", lf_fi, ok, alpha(apps[0], lf_fi.node), "delta_l == n_l - 1 - s_l", {"linear_form": lf.pretty()})
     except Undecided as exc:
-        rep.ob("O19.2", "R15", lf_fi, None, apps[0], str(exc))
-    ld = local_defs(lf_fi.node)
-    ok = norm(origin(ld, ast.Name(id="n_l", ctx=ast.Load()))) == "len(lc)" and \
-        norm(origin(ld, ast.Name(id="s_l", ctx=ast.Load()))) == "self._linkage_class_stoich_rank(lc)" and \
-        norm(origin(ld, ast.Name(id="lcs", ctx=ast.Load()))) == "list(nx.connected_components(und))" and \
-        norm(origin(ld, ast.Name(id="und", ctx=ast.Load()))) == "self._complex_graph.to_undirected()"
+        rep.ob("O19.2", "R15", lf_fi, None, alpha(apps[0], lf_fi.node), str(exc))
+    its = origin(ld, lps_[0].iter) if lps_ else None
+    m = pmatch("list(nx.connected_components($und))", its) or pmatch("nx.connected_components($und)", its)
+    ok = m is not None and norm(origin(ld, ast.Name(id=m["und"], ctx=ast.Load()))) == "self._complex_graph.to_undirected()"
     rep.ob("O19.2", "SHAPE", lf_fi, ok, "n_l, s_l, lcs", "per-class quantities are taken over the components of the undirected complex graph")
     # per-class rank: differences product - reactant over arcs inside the class
     lr = rep.f(DF, A + "_linkage_class_stoich_rank")
     ldefs = local_defs(lr.node)
-    diff = [x for x in ldefs.get("diff", []) if x.kind == "assign"]
-    ok = bool(diff) and isinstance(diff[0].value, ast.BinOp) and isinstance(diff[0].value.op, ast.Sub)
-    rep.ob("O19.2", "R15", lr, ok, diff[0].stmt if diff else "diff", "per-class rank spans the complex differences of the class's reactions")
-    from ..pattern import pmatch
-    dl = [l for l in walk_local(lr.node) if isinstance(l, ast.For) and any(isinstance(x, ast.Assign) and any(norm(t_) == "diff" for t_ in x.targets) for x in ast.walk(l))]
-    oke = len(dl) == 1 and (pmatch("$s.edges()", dl[0].iter) is not None or pmatch("$s.edges", dl[0].iter) is not None)
+    cols = [c for c in walk_local(lr.node) if isinstance(c, ast.Call) and call_name(c) == "column_stack"]
+    DV = norm(cols[0].args[0]) if cols else None
+    dapp = [c for c in walk_local(lr.node) if DV and isinstance(c, ast.Call) and norm(c.func) == f"{DV}.append"]
+    DIFF = norm(dapp[0].args[0]) if dapp else None
+    diff = [x for x in ldefs.get(DIFF or "", []) if x.kind == "assign"]
+    ok = False
+    dl = []
+    if diff and isinstance(diff[0].value, ast.BinOp) and isinstance(diff[0].value.op, ast.Sub):
+        dl = enclosing_loops(parent_map(lr.node), diff[0].stmt, lr.node)
+        if dl and isinstance(dl[0].target, ast.Tuple) and len(dl[0].target.elts) == 2:
+            u, v = [norm(e) for e in dl[0].target.elts]
+            hi = origin(ldefs, diff[0].value.left)
+            lo = origin(ldefs, diff[0].value.right)
+            ok = f"self._complexes[{v}]" in norm(hi) and f"self._complexes[{u}]" in norm(lo)
+    rep.ob("O19.2", "R15", lr, ok, alpha(diff[0].stmt, lr.node) if diff else "diff", "per-class rank spans the complex differences (product complex minus reactant complex) of the class's reactions")
+    oke = len(dl) >= 1 and (pmatch("$s.edges()", dl[0].iter) is not None or pmatch("$s.edges", dl[0].iter) is not None)
     rep.ob("O19.2", "SHAPE", lr, oke, dl[0].iter if dl else "for u, v in sub.edges()",
            "one difference vector per reaction arc of the class (tree/BFS edges of the *directed* complex graph do not reach every complex)")
-    sub = ldefs.get("sub", [])
-    rep.ob("O19.2", "SHAPE", lr, bool(sub) and norm(sub[0].value) == "self._complex_graph.subgraph(nodes)", sub[0].stmt if sub else "sub",
-           "only reactions inside the linkage class contribute")
+    ok = False
+    if oke:
+        sm = pmatch("$s.edges()", dl[0].iter) or pmatch("$s.edges", dl[0].iter)
+        ssrc = origin(ldefs, ast.Name(id=sm["s"], ctx=ast.Load()))
+        m2 = pmatch("self._complex_graph.subgraph($n)", ssrc)
+        ok = m2 is not None and norm(origin(ldefs, ast.Name(id=m2["n"], ctx=ast.Load()))) in (f"list({lr.params[1]})", lr.params[1])
+    rep.ob("O19.2", "SHAPE", lr, ok, "sub = self._complex_graph.subgraph(nodes)", "only reactions inside the linkage class contribute")
 
 
 def definitions(rep):
@@ -223,9 +277,6 @@ def definitions(rep):
     okr = len(rets) == 2 and shape[0][0] == "False" and len(shape[0][1]) == 1 and shape[0][1][0][0].startswith("not nx.is_strongly_connected") \
         and shape[0][1][0][1] and shape[1] == ("True", [])
     rep.ob("O19.2", "SHAPE", fi, okr, str(shape), "False exactly when some class is not strongly connected, True otherwise")
-    cs = rep.f(DF, A + "compute_summary")
-    wr = [c for c in walk_local(cs.node) if isinstance(c, ast.Call) and call_name(c) == "_is_weakly_reversible"]
-    rep.ob("O19.2", "SHAPE", cs, bool(wr) and norm(wr[0].args[0]) == "CG", wr[0] if wr else "_is_weakly_reversible", "weak reversibility is evaluated on the complex graph")
     d0 = rep.f(DF, A + "check_deficiency_zero")
     rets = returns_of(d0.node)
     ok = bool(rets) and norm(rets[-1].value) == "self._summary.deficiency == 0 and self._summary.weakly_reversible"
